@@ -26,6 +26,9 @@ type SpecEnv struct {
 	bound    map[string]*Term
 	noScope  bool
 	calleeFn *types.Func
+	// relational verification: the two runs; other is the environment of the second run (second(e))
+	rel1, rel2 *relRun
+	other      *SpecEnv
 }
 
 func (env *SpecEnv) with(name string, v Value) *SpecEnv {
@@ -689,6 +692,29 @@ func (e *Engine) evalSpecCall(x *SExpr, env *SpecEnv) Value {
 			return VTerm{T: mkMax(a, b), Typ: resType(vs[0], vs[1])}
 		}
 		return VTerm{T: mkMin(a, b), Typ: resType(vs[0], vs[1])}
+	case "second":
+		// relational clauses: the value of the expression in the second run
+		if env.other == nil || env.rel2 == nil || len(args) != 1 {
+			unsup("spec: second() outside a rel clause")
+		}
+		o := *env.other
+		o.bound = env.bound
+		o.other = nil
+		// bound variables of the enclosing quantifiers stay visible
+		if len(env.bound) > 0 {
+			n := map[string]Value{}
+			for k, v := range o.names {
+				n[k] = v
+			}
+			o.names = n
+		}
+		saveR, saveA := e.callRes, e.callArgs
+		e.callRes, e.callArgs = env.rel2.callRes, env.rel2.callArgs
+		n0 := len(o.st.pc)
+		v := e.evalSpec(args[0], &o)
+		e.callRes, e.callArgs = saveR, saveA
+		_ = n0
+		return v
 	case "istype":
 		// dynamic type test on an interface-typed value: istype(x, "trend.Sma")
 		if len(args) != 2 || args[1].Kind != "str" {
